@@ -104,6 +104,20 @@ Theorem C18_modes_equal : forall v h1 h2, vcf_ok v = true -> hist_ok h1 = true -
 Proof. exact modes_equal. Qed.
 Print Assumptions C18_modes_equal.
 
+(* the headline case needs no condition on file names: all runs of the history use the same phased / select_samples /
+   ignore_conversions (any mode flags, any chrom argument, any query sequences and contig orders) *)
+Theorem C18_modes_equal_one_setting : forall v cf0 h, vcf_ok v = true ->
+  (forall run, In run h -> sem_eq (fst run) cf0) ->
+  (forall run q, In run h -> In q (snd run) -> 0 <= query_pos q) ->
+  snd (run_history v [] h) = map (spec_run v) h.
+Proof. exact one_setting_spec. Qed.
+Print Assumptions C18_modes_equal_one_setting.
+
+(* cache files of different contigs never collide under one setting *)
+Theorem C18_cache_name_contig : forall cf c1 c2, cache_name cf c1 = cache_name cf c2 -> c1 = c2.
+Proof. exact cache_name_contig. Qed.
+Print Assumptions C18_cache_name_contig.
+
 (* equal settings (possibly written differently) build the same table: what makes a shared cache file sound *)
 Theorem C18_same_settings_same_table : forall cf1 cf2 r, same_sem cf1 cf2 = true -> informative cf1 r = informative cf2 r.
 Proof. exact same_sem_informative. Qed.
